@@ -47,7 +47,8 @@ TLaunch ==
   /\ UNCHANGED Flow
 
 \* JobStart: Start with unobservable pop order
-TStart == IsEvent("JobStart") /\ ~abort /\ StartFrom(Id, queue)
+\* (the closure may have loaded the abort flag before another worker set it: the log decides)
+TStart == IsEvent("JobStart") /\ StartFrom(Id, queue, FALSE)
 
 \* JobAborted: the closure saw abort_queued_jobs and returned without a message.  The flag
 \* is stored by the panicking worker before its JobEnd is logged, so it may not be set in
